@@ -302,6 +302,9 @@ namespace C13
       }
       gate_b.sync_0(bb);
       out.put("x_blk_dot", gate_b.dot(bb, bw));
+      out.put("x_blk_async_dot", gate_b.dot_async(bb, bw).wait());
+      out.put("t_blk_async_nrm2", gate_b.dot_async(bw, bw, true).wait());
+      out.put("t_blk_nrm2", Math::sqrt(gate_b.dot(bw, bw)));
       out.put("x_blk_ndofs", gate_b.get_num_global_dofs());
       BVec bc = bw.clone();
       gate_b.sync_1(bc);
@@ -387,6 +390,9 @@ namespace C13
       }
       out.put("x_tup3_xw", gate_3.dot(tx, tw));
       out.put("x_tup3_xx", gate_3.dot(tx, tx));
+      out.put("x_tup3_async_xw", gate_3.dot_async(tx, tw).wait());
+      out.put("x_tup3_async_xx", gate_3.dot_async(tx, tx, false).wait());
+      out.put("t_tup3_async_nrm2", gate_3.dot_async(tx, tx, true).wait());
       TVec3 tc = tw.clone();
       gate_3.sync_1(tc);
       tc.axpy(tw, -1.0);
@@ -499,6 +505,26 @@ namespace C13
       mat_trap.lump_rows(vd, true);
       out.put("x_lump_w1", vd.dot(vw1));
       out.put("x_lump_max", vd.max_abs_element());
+    }
+
+    // asynchronous reductions (Gate / Global::Vector *_async + ticket wait, as used by the pipelined solvers): every
+    // variant must give the number of its synchronous twin (x_: dyadic data, bit-identical for every process count)
+    {
+      out.put("x_async_dot", vx.dot_async(vw2).wait());                         // = x_x_w2
+      out.put("x_async_nrm2sqr", vx.norm2sqr_async().wait());                   // = x_x_x
+      out.put("x_async_nrm2", vx.norm2_async().wait());                         // = x_x_nrm
+      out.put("x_async_gdot", gate.dot_async(vx.local(), vw2.local()).wait());
+      out.put("x_async_gdot_sqrt", gate.dot_async(vx.local(), vx.local(), true).wait());
+      out.put("x_async_maxabs", vx.max_abs_element_async().wait());             // = x_x_max
+      out.put("x_async_minabs", vx.min_abs_element_async().wait());
+      out.put("x_async_max", vx.max_element_async().wait());
+      out.put("x_async_min", vx.min_element_async().wait());
+      const double owned = gate.get_freqs().dot(LocalSystemVector(nloc, 1.0));
+      out.put("t_async_sum", gate.sum_async(owned).wait());                     // = number of global DOFs
+      out.put("t_async_sum_sqrt", gate.sum_async(owned, true).wait());
+      out.put("x_async_gmin", gate.min_async(vx.local().min_element()).wait());
+      out.put("x_async_gmax", gate.max_async(vx.local().max_element()).wait());
+      out.put("t_async_gnorm2", gate.norm2_async(Math::sqrt(gate.get_freqs().triple_dot(vx.local(), vx.local()))).wait());
     }
 
     // Global::Splitter (base splitter) on the finest level: join gives the unpartitioned vector on the root, split the
